@@ -109,6 +109,15 @@ def mode0_fragile(cfg):
     return cfg["family"] == "ias15" and ["ri_ias15.adaptive_mode", 0] in cfg["set"]
 
 
+STALL = 300
+
+
+def stalled(times):
+    """True if the time has not changed (bitwise) over the last STALL step boundaries."""
+    from .. import rb
+    return len(times) > STALL and all(rb.dbits(t) == rb.dbits(times[-1]) for t in times[-STALL:])
+
+
 def adv_candidates(t, dt):
     return (t + dt, (t + dt / 2.) + dt / 2.)
 
@@ -202,7 +211,10 @@ def run_contract(case, ctx):
         steps0 = sim.steps_done
         p0 = inv.pbytes(sim)
         log.clear()
-        nexp = abs(tmax - t0) / abs(dt0) if dt0 != 0 else 0
+        cap = abs(dt0)
+        if fam == "bs" and sim.ri_bs.max_dt > 0:
+            cap = min(cap, sim.ri_bs.max_dt)        # a user-set max_dt legitimately bounds every step
+        nexp = abs(tmax - t0) / cap if cap != 0 else 0
         limit[0] = int(60 * nexp + 4000)
         where = "call %d (%s, eft=%d, t0=%r, tmax=%r, dt=%r, %s)" % (ci, mode, eft, t0, tmax, dt0, fam)
         bs_floor = fam == "bs" and sim.ri_bs.min_dt > 0
@@ -225,8 +237,14 @@ def run_contract(case, ctx):
             ctx.skip("ias15 adaptive_mode=0 step collapse (documented limitation)")
             return
         if len(log) > limit[0]:
-            raise Violation("integrate makes no progress towards tmax: %d steps taken where ~%d are implied; %s"
-                            % (len(log) - 1, int(nexp) + 1, where), tail=log[-4:])
+            # the property fixes the number of steps only for fixed-step schemes; an adaptive scheme that keeps
+            # advancing with steps far below the user's dt is slow, not wrong: only a true stall is reported
+            if fixed or stalled([l[0] for l in log]):
+                raise Violation("integrate makes no progress towards tmax: %d steps taken where ~%d are implied%s; %s"
+                                % (len(log) - 1, int(nexp) + 1,
+                                   "" if fixed else ", t unchanged over the last %d steps" % STALL, where), tail=log[-4:])
+            ctx.skip("adaptive run stopped by the step budget while still advancing (no verdict)")
+            return
         if st_ != 0:
             raise Violation("integrate returned status %d without exit condition; %s" % (st_, where))
         t1 = sim.t
@@ -665,7 +683,10 @@ def run_status(case, ctx):
         ctx.skip("ias15 adaptive_mode=0 step collapse (documented limitation)")
         return
     if nb > limit:
-        raise Violation("integrate makes no progress towards tmax (%s)" % fam)
+        if cfg["fixed_step"] or stalled([x[0] for x in states]):
+            raise Violation("integrate makes no progress towards tmax (%s)" % fam)
+        ctx.skip("adaptive run stopped by the step budget while still advancing (no verdict)")
+        return
     where = "(%s, eft=%d, conds=%s, %d boundaries)" % (fam, case["eft"], kinds, nb)
     # independent evaluation on the recorded boundary states
     kstar = None
@@ -802,9 +823,14 @@ def run_status_now(case, ctx):
         while sim.N > 0:
             sim.remove(sim.N - 1)
     calls = [0]
+    states = []
 
     def hb(p):
         calls[0] += 1
+        if len(states) < 5000:
+            states.append(inv.parr(sim))
+        else:
+            sim.stop()
         if case["stop"] and calls[0] == 1:
             sim.stop()
     sim.heartbeat = hb
@@ -814,23 +840,6 @@ def run_status_now(case, ctx):
     if case["offset"] != "equal" and t0 != 0.0 and not (fam == "trace" and case["offset"] == "ulp-"
                                                          and ctx.finding_open("C08-trace-backward")):
         tmax = math.nextafter(t0, math.inf if case["offset"] == "ulp+" else -math.inf)
-    expected = set()
-    if not empty:
-        pm = pred_margins(a, emax, emin, False)
-        for kind, val in pm.items():
-            if val is True:
-                expected.add(EXC_OF[kind])
-            elif val is None:
-                ctx.skip("predicate within rounding of its threshold")
-                return
-    if empty:
-        expected = {"NoParticles"}      # reb_check_exit overrides whatever the heartbeat set when N == 0
-    elif case["stop"] and not expected:
-        expected = {"stop"}
-    elif case["stop"]:
-        pass                            # the distance checks run after the heartbeat and overwrite USER
-    if not expected:
-        expected = {"success"}
     exc = None
     try:
         sim.integrate(tmax, exact_finish_time=case["eft"])
@@ -844,14 +853,49 @@ def run_status_now(case, ctx):
         case["escape"], case["encounter"], case["stop"], empty)
     if calls[0] < 1:
         raise Violation("integrate() returned without calling the heartbeat once %s" % where)
+    if len(states) >= 5000:
+        ctx.skip("adaptive run stopped by the step budget (no verdict)")
+        return
+    # expected outcome from the boundaries integrate() actually visited: with a target one ulp ahead/behind and no
+    # condition at boundary 0 a step is taken (a full one for exact_finish_time=0) and the checks apply at its end
+    expected = None
+    kstar = None
+    for k, ak in enumerate(states):
+        tr = set()
+        amb = set()
+        if empty:
+            tr.add("NoParticles")       # reb_check_exit overrides whatever the heartbeat set when N == 0
+        else:
+            for kind, val in pred_margins(ak, emax, emin, False).items():
+                if val is True:
+                    tr.add(EXC_OF[kind])
+                elif val is None:
+                    amb.add(EXC_OF[kind])
+            if k == 0 and case["stop"] and not tr:
+                tr.add("stop")          # the distance checks run after the heartbeat and overwrite USER
+                if amb:
+                    tr |= amb
+        if amb and not tr:
+            ctx.skip("predicate within rounding of its threshold")
+            return
+        if tr:
+            expected, kstar = tr | amb, k
+            break
+    if expected is None:
+        expected, kstar = {"success"}, len(states) - 1
+    if kstar != len(states) - 1:
+        raise Violation("exit condition(s) %s hold at step boundary %d; integrate went on to boundary %d and ended "
+                        "with %s %s" % (sorted(expected), kstar, len(states) - 1, got, where))
     if got not in expected:
-        raise Violation("exit condition(s) %s hold at the current time; integrate ended with %s %s"
-                        % (sorted(expected), got, where))
+        raise Violation("exit condition(s) %s hold at step boundary %d; integrate ended with %s %s"
+                        % (sorted(expected), kstar, got, where))
     if expected != {"success"}:
-        if sim.steps_done != steps0:
+        if kstar == 0 and sim.steps_done != steps0:
             raise Violation("an exit condition holds before the first step, yet %d step(s) were taken %s"
                             % (sim.steps_done - steps0, where))
         ctx.nontrivial()
+        if kstar > 0:
+            ctx.cls("after_first_step")
     for e_ in expected:
         ctx.cls(e_)
     ctx.cls("equal" if tmax == t0 else "ulp")
